@@ -11,7 +11,7 @@ FALLBACK = ['C20', 'C14', 'C16', 'C07', 'C06', 'C01', 'C02', 'C12', 'C13', 'C17'
 
 # checks other than the seed's own that report it (DESIGN 9.5), tried right after the own check
 HINTS = {'C04-b': ['C13'], 'C07-c': ['C13'], 'C02-d': ['C14'], 'C09-g': ['C07'], 'C18-g': ['C07'], 'C05-g': ['C20'], 'C05-h': ['C16'], 'C08-h': ['C20'], 'C14-g': ['C01'],
-         'C18-h': ['C16'], 'C04-g': ['C06', 'C20'], 'C03-h': ['C02'], 'C09-h': ['C07'], 'C14-h': ['C01'], 'C20-i': ['C19'], 'C04-h': ['C13'], 'C05-i': ['C02'], 'C02-i': ['C10']}
+         'C18-h': ['C16'], 'C04-g': ['C06', 'C20'], 'C03-h': ['C02'], 'C09-h': ['C07'], 'C14-h': ['C01'], 'C20-i': ['C19'], 'C04-h': ['C13'], 'C05-i': ['C02'], 'C02-i': ['C10'], 'C13-j': ['C12'], 'C07-i': ['C11'], 'C14-i': ['C01']}
 
 
 def sh(cmd, **kw):
